@@ -169,6 +169,15 @@ func (f *Fn) prov(e ast.Expr, depth int, busy map[*types.Var]bool) string {
 				return f.prov(se.X, depth, busy) + "." + se.Sel.Name + "()"
 			}
 		}
+		if id, ok := ast.Unparen(x.Fun).(*ast.Ident); ok {
+			if _, isB := f.Info.ObjectOf(id).(*types.Builtin); isB {
+				a := ""
+				if len(x.Args) > 0 {
+					a = f.prov(x.Args[0], depth+1, busy)
+				}
+				return "builtin:" + id.Name + "(" + a + ")"
+			}
+		}
 		if k := f.CallKey(x); k != "" {
 			if provTransparent[k] && len(x.Args) == 1 {
 				return f.prov(x.Args[0], depth, busy)
@@ -176,6 +185,8 @@ func (f *Fn) prov(e ast.Expr, depth int, busy map[*types.Var]bool) string {
 			return "call:" + k + "()"
 		}
 		return "call:?()"
+	case *ast.SliceExpr:
+		return f.prov(x.X, depth, busy) + "[:]"
 	case *ast.TypeAssertExpr:
 		return f.prov(x.X, depth, busy) + ".(type)"
 	case *ast.StarExpr:
